@@ -101,11 +101,12 @@ CFG = {
         "T1: harness/cmd/c01/extract.go (go/ast; translation table in its header; approach of harness/cmd/c14/extract.go extended by if/else chains, `v, ok := p.(*Bounds)`, &Bounds{..}, math.Max/Min, nil / interface-typed returns) regenerates lean/GeomV/C01/Gen.lean from polygon.go / multipolygon.go / bounds.go of the tree under test on every run, in a faulting monad (index, slice, make are partial: GenLib.lean); Ties.lean proves that the twelve public methods Polygon/MultiPolygon/(*Bounds).Intersection/Union/XOr/Difference, both op methods, clipperOp, toPolyClip, polyClipToPolygon and the three Polygons() as regenerated return WITHOUT FAULT exactly the model's api / polyOp / boundsIntersection (C01_src_api; for a *Bounds receiver under the explicit hypothesis that it is not the empty box). Not regenerated (hand-written in GenLib.lean, tied by the correspondence run only): Bounds() of a Polygonal, (*Bounds).Within and (*Bounds).Overlaps on *Bounds arguments, with the empty box of NewBounds() as a separate value (its infinite corners have no Rat value); math.Max/Min are max/min on Rat (finite coordinates). Not modelled by the translation: slice capacity (taken = length) and aliasing (observed by the harness: operands compared with a snapshot after every call, histories on one object, concurrent callers)",
         "the head of polyclip's clipper.compute (construct: the two trivial-case tests), BoundingBox and Overlaps are transcribed by hand in lean/GeomV/C01/Model.lean and pinned by version + go.sum hash + sha256 of clipper.go/geom.go/connector.go (pin_polyclip); tied by the correspondence run on every check (exact comparison of every result the model determines)",
         "IEEE-754 rounding: operands are dyadic-grid (exact); the clipper's intersection points are floats: sliver cells between an input edge and its rounded copy are accepted only when all four corners lie within 1e-6*extent of ONE input edge (convexity of the margin zone proved: nearSeg_convex)",
-        "harness/cmd/c01 + lean driver + lib/vcheck.py transport inputs faithfully",
+        "polyArea / holeSign (lean/GeomV/C01/AreaCert.lean) transcribe Polygon.Area of area.go by hand for rings whose first vertex lies on no other ring (checked per case: firstOff); tied by comparing the library's float Area() with exactArea on every area-certified result and operand (1e-9 relative)",
+        "harness/cmd/c01 + lean driver + lib/vcheck.py transport inputs faithfully (the cell points handed over by lean:prep are re-derived by the judge and compared with what the harness echoed)",
     ],
     "assumptions": ["finite coordinates (no NaN/Inf); membership is the even-odd rule over all rings of all member polygons (what geom.pointInPolygonal implements)"],
     "rule": "integer-grid operand pairs (star-shaped / rectilinear / inscribed-convex / rectangular shells, 0-2 holes strictly inside, multi-polygons of 1-3 disjoint members incl. a member inside another's hole, boxes) in forced configuration classes "
-            "(overlapping, nested, disjoint-with-overlapping-boxes, box-disjoint, box-separated along exactly one axis, identical boxes, every vertex of one operand in the solid part of the other without being a subset: surrounding a hole / bridging a notch) x 9 receiver/argument type pairs x 4 operations + area identities (operands compared with a snapshot after the Area calls and after the operations); the library's Point.Within asked about every result at up to 96 probe points (beside the edge midpoints of result and operands, ring corner centroids) and judged by Spec.withinAgrees at the probes with clear margin; multi-polygons with an empty member at a random position; a result ring of >128 (thorough >1024) vertices; concurrent lines (cc: the case recomputed by 8 goroutines while 8 others run the operations on unrelated operands; any answer that differs from the sequential one is judged); "
+            "(overlapping, nested, disjoint-with-overlapping-boxes, box-disjoint, box-separated along exactly one axis, identical boxes, every vertex of one operand in the solid part of the other without being a subset: surrounding a hole / bridging a notch) x 9 receiver/argument type pairs x 4 operations + area identities (operands compared with a snapshot after the Area calls and after the operations); the library's Point.Within asked about every result at up to 96 probe points (beside the edge midpoints of result and operands, ring corner centroids) AND at one point of every cell of the operands' arrangement (lean:prep stage, C01_cells_asked), judged by Spec.withinAgrees at the probes with clear margin; Area() of every result and of both operands against the exact area of the point set (area certificate, C01_area_certificate); operands without contours in either role against closed and unclosed rings; boxes sharing exactly one corner; multi-polygons with an empty member at a random position; a result ring of >128 (thorough >1024) vertices; concurrent lines (cc: the case recomputed by 8 goroutines while 8 others run the operations on unrelated operands; any answer that differs from the sequential one is judged); "
             "40% of the cases at coordinate scales 2^-20/2^-24/2^-30/2^+20 (dyadic: exact), multi-call histories on one line with operands overwritten in place, operands over one flat backing array and compared with a snapshot after each call, size-threshold cases (vertex/ring/member counts beyond 64/128/1024; lines of 1024..3000 vertices); distinct = distinct input line; non-trivial = verdict class not '-outside-quantifier' (invalid or non-general-position corpus cases, compared with the model only)",
     "trivial_class": r"outside-quantifier$",
     "pregen": pregen,
